@@ -60,7 +60,7 @@ def lock_balance(effects, lock):
     return held
 
 
-def run_tolower(repo, lower_raises=False, with_lower=True, cell=None):
+def run_tolower(repo, lower_raises=False, with_lower=True, cell=None, method="toLower", nargs=1):
     """abstract execution of YowLayer.toLower on a layer built by the real constructor, with a lower neighbour whose send
     is observed -> (lock held when lower.send runs (list), held at the end, sends, raised, lock value)"""
     from ..absint import Interp, Obj, _Raise, C_NONE, flat_effects
@@ -83,7 +83,7 @@ def run_tolower(repo, lower_raises=False, with_lower=True, cell=None):
     it.effects[:] = []
     raised = None
     try:
-        it.method_call(("obj", o), "toLower", [("ext", "DATA", [])], {}, {"@module": base.module, "@owner": base}, 0, None)
+        it.method_call(("obj", o), method, [("ext", "DATA", [])] * nargs, {}, {"@module": base.module, "@owner": base}, 0, None)
     except _Raise as r:
         raised = r.text
     effs = list(flat_effects(it.effects))
@@ -149,7 +149,44 @@ def rule_only(ctx, layers_full):
         for n in ast.walk(fn):
             if isinstance(n, ast.Call) and isinstance(n.func, ast.Attribute) and n.func.attr == "send" and "__lower" in unparse(n.func.value):
                 uses.append(name)
-    ctx.check("C11.only", uses == ["toLower"], where(LAYERS, "YowLayer", None), "self.__lower.send used in %s" % uses, "the lower link's send must be invoked from toLower only", "only toLower calls lower.send")
+    if uses == ["toLower"]:
+        ctx.hold("C11.only", where(LAYERS, "YowLayer", None), "self.__lower.send used in %s" % uses, "only toLower calls lower.send")
+    else:
+        # the send sits in a helper (or in several methods): what matters is that no way into the class reaches it without
+        # the layer's lock - every method callable from outside that can reach a use is executed and the lock looked at
+        # at the moment the lower layer's send runs
+        from ..absint import NeedAtom, Budget, DomainGrew
+        from ..repo import params_of
+
+        def private(n_):
+            return n_.startswith("__") and not n_.endswith("__")
+        reach = {u: {u} for u in base.methods}
+        changed = True
+        while changed:
+            changed = False
+            for name, fn in base.methods.items():
+                for n in ast.walk(fn):
+                    if isinstance(n, ast.Call) and is_self_attr(n.func) and (n.func.attr in base.methods or ("_YowLayer" + n.func.attr) in base.methods):
+                        callee = n.func.attr
+                        if not reach[callee] <= reach[name]:
+                            reach[name] |= reach[callee]
+                            changed = True
+        entries = sorted(m for m in base.methods if not private(m) and m != "__init__" and reach[m] & set(uses))
+        bad, und = [], []
+        for m in entries:
+            try:
+                sends, _end, _r, lk = run_tolower(repo, method=m, nargs=len(params_of(base.methods[m])))
+            except (NeedAtom, Budget, DomainGrew) as x:
+                und.append("%s: %s" % (m, x))
+                continue
+            for held, _a in sends:
+                if lk is None or not held or held < 1:
+                    bad.append("%s reaches the lower layer's send with the layer lock held %s time(s)" % (m, held))
+        if und and not bad:
+            ctx.undecided("C11.only", where(LAYERS, "YowLayer", None), "self.__lower.send used in %s" % uses, "not every way to the lower link's send could be followed: " + "; ".join(und[:2]))
+        else:
+            ctx.check("C11.only", not bad and bool(entries), where(LAYERS, "YowLayer", None), "self.__lower.send used in %s" % uses,
+                      "the lower link's send must only run under the layer's lock: " + ("; ".join(bad[:3]) or "no way in found"), "every way to lower.send (%s) holds the layer lock" % ", ".join(entries))
     flat = []
     for L in layers_full:
         flat += L if isinstance(L, list) else [L]
